@@ -99,6 +99,14 @@ def merge_kw(m1, m2):
 
 
 def to_call(sig, named, va, extra):
+  if va:
+    d = dict((k, v) for k, v in named)
+    vals = [d.get(n, dflt) for n, dflt in sig['pos']]
+    if any(v is None for v in vals):
+      # a required positional parameter is unbound: only the keyword form is left (reports it missing)
+      return {'args': [], 'kwargs': named + extra}
+    pos_names = [p[0] for p in sig['pos']]
+    return {'args': vals + va, 'kwargs': [kv for kv in named if kv[0] not in pos_names] + extra}
   if not va:
     po = [p[0] for p in sig['pos'][:sig.get('posonly', 0)]]
     d = dict((k, v) for k, v in named)
@@ -110,9 +118,34 @@ def to_call(sig, named, va, extra):
           'kwargs': [kv for kv in named if kv[0] not in pos] + extra}
 
 
-def effective(sig, c1, c2, ignore):
+def apply_late(sig, n1, late):
+  """Named.late: the late-binding operations (rebind / setattr / del on the functor object) on
+  the level of the supplied arguments."""
+  if n1 is None:
+    return None
+  names = sig_names(sig)
+  named, va, extra = [list(kv) for kv in n1[0]], list(n1[1]), [list(kv) for kv in n1[2]]
+  for op in late or ():
+    if op['op'] == 'rebind':
+      dfl = dict((n, d) for n, d in sig['pos'] + sig['kwonly'])
+      for k, v in op['upd']:
+        if k in names:
+          cur = dict((a, b) for a, b in named).get(k, dfl[k])
+          if cur != v:      # writing the value a parameter already has changes nothing
+            named = merge_kw(named, [[k, v]])
+        else:
+          extra = merge_kw(extra, [[k, v]])
+    elif op['op'] == 'set_va':
+      va = list(op['vals'])
+    else:
+      named = [kv for kv in named if kv[0] != op['name']]
+      extra = [kv for kv in extra if kv[0] != op['name']]
+  return named, va, extra
+
+
+def effective(sig, c1, c2, ignore, late=()):
   """Returns dict(call, conflict, va_conflict) or None."""
-  n1 = name_args(sig, c1['args'], c1['kwargs'])
+  n1 = apply_late(sig, name_args(sig, c1['args'], c1['kwargs']), late)
   a2, k2 = (drop_extras(sig, c2['args'], c2['kwargs']) if ignore else (c2['args'], c2['kwargs']))
   n2 = name_args(sig, a2, k2)
   if n1 is None or n2 is None:
@@ -594,10 +627,54 @@ class C18(Prop):
     case['c2'] = dict(c2, kwargs=dedupe(c2['kwargs']), **c2f)
     # the call (not the construction) runs under pg.enable_type_check(False) in ~12 % of the cases
     case['tc_call'] = not rng.chance(0.12)
+    if rng.chance(0.22):
+      self.gen_late(rng, case)
     if rng.chance(0.15) and sig_names(sig):
       # a clone of the functor is re-bound before the original is called: must not affect the original
       case['clone_upd'] = [[n, self.val(rng)] for n in rng.sample(sig_names(sig), rng.randint(1, min(2, len(sig_names(sig)))))]
     return case
+
+  def gen_late(self, rng, case):
+    """Late binding on the functor object between construction and call: rebind / setattr of named
+    parameters, of wildcard keywords (**kwargs) and of the variadic positional list (*args), and del."""
+    sig = case['sig']
+    names = sig_names(sig)
+    n1 = name_args(sig, case['c1']['args'], case['c1']['kwargs'])
+    if n1 is None:
+      return
+    extras = [k for k, _ in n1[2]]
+    kinds = []
+    if names:
+      kinds += [(3, 'named'), (2, 'del')]
+    if sig['varkw'] is not None:
+      kinds += [(4, 'extra')]
+    if sig['varargs'] is not None:
+      kinds += [(4, 'va')]
+    if not kinds:
+      return
+    ops = []
+    for _ in range(rng.randint(1, 3)):
+      k = rng.weighted(kinds)
+      via = 'setattr' if rng.chance(0.4) else 'rebind'
+      if k == 'named':
+        upd = [[n, self.val(rng)] for n in rng.sample(names, rng.randint(1, min(2, len(names))))]
+        if sig['varkw'] is not None and rng.chance(0.3):
+          e = rng.choice(EXTRA_NAMES)
+          upd.append([e, self.val(rng)])
+          extras.append(e)
+        ops.append({'op': 'rebind', 'upd': upd, 'via': via})
+      elif k == 'extra':
+        upd = [[e, self.val(rng)] for e in rng.sample(EXTRA_NAMES, rng.randint(1, 2))]
+        extras += [e for e, _ in upd]
+        ops.append({'op': 'rebind', 'upd': upd, 'via': via})
+      elif k == 'va':
+        ops.append({'op': 'set_va', 'vals': [self.val(rng) for _ in range(rng.randint(0, 3))], 'via': via})
+      else:
+        cands = names + [e for e in extras]
+        n = rng.choice(cands)
+        ops.append({'op': 'del', 'name': n})
+        extras = [e for e in extras if e != n]
+    case['late'] = ops
 
   def gen_hist(self, rng, case):
     """Symbolized existing class whose __init__ computes derived state and may raise: construct,
@@ -679,6 +756,8 @@ class C18(Prop):
     req = {'kind': case['kind'], 'sig': case['sig'], 'c1': case['c1'], 'fix29': True}
     if case['kind'] == 'functor':
       req['c2'] = case['c2']
+      if case.get('late'):
+        req['late'] = case['late']
     if case['kind'] == 'hist':
       req['steps'] = case['steps']
     return req
@@ -744,7 +823,7 @@ class C18(Prop):
     ignore = c2['ignore'] if c2['ignore'] is not None else c1['ignore']
     override = c2['override'] if c2['override'] is not None else c1['override']
     model['py_c2'] = direct(a2, k2)
-    eff = effective(sig, c1, c2, ignore)
+    eff = effective(sig, c1, c2, ignore, case.get('late'))
     model['effective'] = eff['call'] if eff else None
     model['py_eff'] = direct(eff['call']['args'], eff['call']['kwargs']) if eff else None
     model['conflict'] = eff['conflict'] if eff else None
@@ -788,6 +867,28 @@ class C18(Prop):
         obj.clone(deep=True).rebind(raise_on_no_change=False, **kw(case['clone_upd']))
       except Exception as e:   # pylint: disable=broad-except
         obs['clone_upd_error'] = type(e).__name__
+    for op in case.get('late', []):
+      # late binding on the functor object itself, before the call
+      try:
+        if op['op'] == 'rebind':
+          if op.get('via') == 'setattr':
+            for k, v in op['upd']:
+              setattr(obj, k, dec(v))
+          else:
+            obj.rebind(raise_on_no_change=False, **kw(op['upd']))
+        elif op['op'] == 'set_va':
+          if op.get('via') == 'setattr':
+            setattr(obj, sig['varargs'], pos(op['vals']))
+          else:
+            obj.rebind(raise_on_no_change=False, **{sig['varargs']: pos(op['vals'])})
+        else:
+          delattr(obj, op['name'])
+      except Exception as e:   # pylint: disable=broad-except
+        obs.setdefault('late_errors', []).append([op, type(e).__name__, str(e)[:120]])
+    if case.get('late'):
+      nl = apply_late(sig, name_args(sig, a1, k1), case['late'])
+      rc = to_call(sig, *nl)
+      obs['py_reported'] = direct(rc['args'], rc['kwargs'])
     model['sym_init_args'] = canon_init_args(obj, missing, sig)
     model['specified'] = sorted(obj.specified_args)
     model['default'] = sorted(obj.default_args)
@@ -992,13 +1093,23 @@ class C18(Prop):
     if n1 is None:
       return {'signature': 'accepts:%s:construction' % m['py_c1'].get('kind', '?'),
               'what': 'F(*%s, **%s) is accepted, the direct call gives %s' % (c1['args'], c1['kwargs'], m['py_c1'])}
-    f = self._reported(sig, n1, m['sym_init_args'], 'construction', full=False)
+    late = case.get('late')
+    if obs.get('late_errors'):
+      return {'signature': 'late-binding-op-raises:%s' % obs['late_errors'][0][1],
+              'what': 'late binding on the functor object raises: %s' % obs['late_errors'][:1]}
+    if late:
+      n1 = apply_late(sig, n1, late)
+    f = self._reported(sig, n1, m['sym_init_args'], 'late-bound' if late else 'construction', full=False)
     if f:
       return f
     if obs['init_args_after_call'] != m['sym_init_args']:
       return {'signature': 'call-mutates-functor', 'what': 'sym_init_args changed by __call__: %s -> %s' % (m['sym_init_args'], obs['init_args_after_call'])}
-    # construction-time binding: F(*a, **k)() is f(*a, **k)
-    f = self._mismatch('construction-time-binding', m['py_c1'], m['call0'])
+    if late:
+      # re-bound functor: F…() is the plain function called with the REPORTED arguments
+      f = self._mismatch('call-with-reported-args', obs['py_reported'], m['call0'])
+    else:
+      # construction-time binding: F(*a, **k)() is f(*a, **k)
+      f = self._mismatch('construction-time-binding', m['py_c1'], m['call0'])
     if f:
       return f
     # JSON round trip then call; clone then call
@@ -1011,7 +1122,7 @@ class C18(Prop):
         return {'signature': 'roundtrip:%s' % k, 'what': '%s = %s, original %s' % (k, obs[k], m['call'])}
     # the two-stage call
     ignore = c2['ignore'] if c2['ignore'] is not None else c1['ignore']
-    if not (c1['args'] or c1['kwargs']) and not ignore:
+    if not (c1['args'] or c1['kwargs']) and not ignore and not late:
       # late binding: F()(*a, **k) is f(*a, **k), literally
       f = self._mismatch('late-binding', m['py_c2'], m['call'])
       if f:
@@ -1031,7 +1142,7 @@ class C18(Prop):
       return None
     if m['va_conflict'] and not m['override']:
       return None     # observation O1 (prebound *args silently replaced); the property does not fix it
-    stage = 'late-binding' if not (c1['args'] or c1['kwargs']) else 'two-stage'
+    stage = 're-bound-then-call' if late else ('late-binding' if not (c1['args'] or c1['kwargs']) else 'two-stage')
     return self._mismatch(stage, m['py_eff'], m['call'])
 
   def _oracle_hist(self, case, out, n1):
@@ -1154,6 +1265,10 @@ class C18(Prop):
       h.append('Optional-annotation')
     if case.get('clone_upd'):
       h.append('clone-rebound-before-call')
+    for op in case.get('late', []):
+      h.append('late-op:%s%s' % (op['op'], ':' + op['via'] if 'via' in op else ''))
+      if op['op'] == 'rebind' and any(k not in sig_names(sig) for k, _ in op['upd']):
+        h.append('late-op:wildcard-keyword')
     if case['kind'] == 'hist':
       h.append('hist-init:%s' % m['init'])
       h.append('hist-steps:%d' % len(m['steps']))
@@ -1204,6 +1319,12 @@ class C18(Prop):
     used = {k for cn in calls for k, _ in case[cn]['kwargs']}
     used |= {k for st in case.get('steps', []) for k, _ in st['upd']}
     used |= {k for k, _ in case.get('clone_upd', [])}
+    used |= {k for op in case.get('late', []) for k, _ in op.get('upd', [])}
+    used |= {op['name'] for op in case.get('late', []) if 'name' in op}
+    for i in range(len(case.get('late', []))):
+      cand = copy.deepcopy(case)
+      cand['late'].pop(i)
+      yield cand
     used |= set(case.get('optional', []))
     for i in range(len(case.get('steps', []))):
       cand = copy.deepcopy(case)
